@@ -130,6 +130,15 @@ def c17(tier, replay_file=None):
             for i in range(600 if tier == "quick" else 20000):
                 pats = [[rng.choice(wide) for _ in range(rng.randint(1, 12))] for _ in range(rng.choice([1, 1, 2, 3]))]
                 cases.append({"id": n0 + i + 1, "pats": pats})
+            # a dictionary in the fuzzers' sense: every word of every string literal of the file that builds the unit (whatever
+            # marker, placeholder or keyword the code itself works with is a pattern a user may type), alone and embedded
+            toks = source_tokens(os.path.join(REPO, "src", "udev_utils.rs"))
+            n0 = len(cases)
+            k = 0
+            for t in toks:
+                for pats in ([t], ["KB" + t], [t + "x", "K"], ["K", "a" + t + "b"]):
+                    k += 1
+                    cases.append({"id": n0 + k, "pats": [[ord(ch) for ch in p_] for p_ in pats]})
             write_ndjson(cpath, cases)
         rpath = os.path.join(wd, "results.ndjson")
         t0 = time.time()
@@ -159,7 +168,7 @@ def c17(tier, replay_file=None):
             "evaluations": judged + scal.get("scalars_judged", 0), "distinct_nontrivial": nontriv,
             "rule": "pattern lists: every string of length <= %d over 28 syntax-relevant code points (all characters the ExecStart reader treats specially, "
                     "one representative of each class it does not), longer strings that start with an escape/specifier/variable introducer, two- and three-pattern "
-                    "lists, and random strings and lists over a wider alphabet; plus every Unicode scalar value except NUL as a one-character pattern (%s). "
+                    "lists, random strings and lists over a wider alphabet, and every word of every string literal of src/udev_utils.rs alone and embedded; plus every Unicode scalar value except NUL as a one-character pattern (%s). "
                     "Non-trivial = contains a character the reader treats specially, a control or a non-ASCII character. Each case: real build_service_text, "
                     "then SystemdExec!ExecDecode must return exactly the intended argument vector." % (2 if tier == "quick" else 3, scal.get("how", "not run")),
             "samples": [{"patterns": [cp_str(p) for p in c["pats"]], "code_points": c["pats"]} for c in (cases[0], cases[len(cases) // 3], cases[-1])],
@@ -173,6 +182,21 @@ def c17(tier, replay_file=None):
     except ToolError as e:
         res.tool_errors.append(str(e))
     return res.finish()
+
+
+def source_tokens(path, cap=400):
+    """words of the string literals of a source file (data for the pattern generator; no judgement)"""
+    import re
+    try:
+        txt = open(path, encoding="utf-8", errors="replace").read()
+    except OSError:
+        return []
+    toks = []
+    for lit in re.findall(r'"((?:[^"\\]|\\.)*)"', txt, re.S):
+        for t in re.split(r"\s+", lit):
+            if 0 < len(t) <= 40 and "\x00" not in t and t not in toks:
+                toks.append(t)
+    return toks[:cap]
 
 
 def c17_scalars(res, exe, wd, tier):
